@@ -1,23 +1,85 @@
-"""Per-property configuration: proof units, bounded module, claimed level (see MANIFEST.json / DESIGN.md 6)."""
+"""Per-property configuration: proof units, bounded module, claimed level (MANIFEST.json is generated from this).
+
+level: 'proof'  - every obligation of the units is discharged for all inputs; the property (or the stated part)
+                  follows from the contracts; bounded side is replay/counterexample finder only
+       'other'  - mixed: some functions proved, the rest covered by the labelled bounded stand-in
+       'exploration' - bounded stand-in only (run-time contracts on the real code over a stated scope)
+"""
+
+CLOSURES = ['matrices.prime', 'matrices.double', 'matrices.doubleprime']
+GALOIS = ['lemma.galois.O', 'lemma.galois.P', 'lemma.galois2.O', 'lemma.galois2.P']
+BOUNDED_TECH = 'bounded stand-in: run-time contracts on the real functions against a brute-force oracle over an enumerated, stated scope'
 
 PROPS = {
     'C01': {
-        'units': ['matrices.prime', 'matrices.double', 'matrices.doubleprime'],
-        'bounded': 'c01',
-        'level': 'proof',
-        'proved_part': 'loop invariants and postconditions of the real closures prime/double/doubleprime for an arbitrary '
-                       'PairEnv (all widths, all bit patterns): result = the Galois derivation of the table',
-        'bounded_part': 'Context.intension/extension label forms, bitsets library contracts, Relation.__new__ establishing PairEnv',
-        'technique': 'deductive verification: loop invariants + postconditions on the real closures, z3/cvc5; bounded run-time contracts as replay',
+        'units': CLOSURES + ['contexts.intension', 'contexts.extension'],
+        'bounded': 'c01', 'level': 'proof',
+        'proved_part': 'loop invariants, index safety, termination and postconditions of the real closures prime/double/doubleprime '
+                       'for an arbitrary PairEnv (all widths, all bit patterns): result = the Galois derivation of the table; '
+                       'intension/extension = Up/Dn of the named set in raw and label form, KeyError exactly on unknown names',
+        'bounded_part': 'bitsets library contracts (frommembers, members), Relation.__new__ establishing PairEnv; replay',
+        'technique': 'contract-based deductive verification: loop invariants + postconditions on the real closures and API methods, VCs from the real AST, z3/cvc5',
         'level_text': 'All obligations (invariant entry/preservation, index safety, termination variant, postcondition) of the real '
-                      'prime/double/doubleprime closures are discharged for unbounded integers, i.e. all widths and all bit patterns.',
-        'level_note': 'Assumes the stated Python semantics, the BITS axioms, and that Relation.__new__ (bitsets library) establishes PairEnv; '
-                      'the label-level API (frommembers/members) is covered by the bounded side only.',
+                      'prime/double/doubleprime closures and of intension/extension are discharged over unbounded integers, i.e. for all widths and bit patterns.',
+        'level_note': 'Assumes the stated Python semantics, the BITS axioms, that Relation.__new__ (bitsets library) establishes PairEnv and the '
+                      'bitsets contracts of frommembers/members; those are covered by the bounded side only.',
+    },
+    'C02': {
+        'units': ['contexts.getitem'] + GALOIS,
+        'bounded': 'c02', 'level': 'other',
+        'proved_part': 'Context.__getitem__ returns (Cl(A),Up(A)) / (Dn(B),Cl\'(B)) in this order, raw and label form; closure laws (extensive, '
+                       'monotone, idempotent, least) as z3 lemmas from the definitions',
+        'bounded_part': 'Lattice.__call__/__getitem__ identity of the returned member; establishment of LatInv',
+        'technique': 'contract-based deductive verification of Context.__getitem__ + z3-proved closure lemmas; bounded stand-in for the lattice lookups',
+        'level_text': 'The context-level lookup is proved for all inputs; closure-operator laws are proved as lemmas; lattice lookups are bounded.',
+        'level_note': 'Assumes CtxInv (label disjointness) and bitsets contracts; lattice member identity is checked only on the bounded scope.',
+    },
+    'C07': {
+        'units': ['members.join', 'members.meet', 'lemma.meet_closed.O'] + GALOIS,
+        'bounded': 'c07', 'level': 'other',
+        'proved_part': 'binary Concept.join/meet return the member whose extent is Cl(e1|e2) resp. e1&e2, relative to LatInv.1/4; '
+                       'intersection of extents is an extent (lemma)',
+        'bounded_part': 'n-ary Lattice.join/meet, algebraic laws, establishment of LatInv',
+        'technique': 'contract-based deductive verification of binary join/meet relative to the lattice invariant; bounded stand-in for the n-ary forms',
+        'level_text': 'Binary join/meet are proved relative to LatInv; n-ary forms and LatInv establishment are bounded.',
+        'level_note': 'LatInv (mapping defined exactly on extents, one member per extent) is an assumption here; bounded side checks it.',
+    },
+    'C08': {
+        'units': ['members.' + n for n in ('implies', 'subsumes', 'properly_implies', 'properly_subsumes', 'incompatible_with',
+                                            'complement_of', 'subcontrary_with', 'orthogonal_to')],
+        'bounded': 'c08', 'level': 'proof',
+        'proved_part': 'truthiness of each of the eight real predicates equals the set-theoretic statement of the property, for all extents',
+        'bounded_part': 'intent-duality (x<=y iff intent(y) subset intent(x)) and partial-order laws on enumerated lattices; replay',
+        'technique': 'contract-based deductive verification: postconditions of the eight straight-line predicates over unbounded bitset integers',
+        'level_text': 'Each predicate is proved equal (by truthiness) to the statement\'s definition for all pairs of object sets of any width.',
+        'level_note': 'Relative to LatInv.2 (supremum extent = all objects); operators are the same function objects (linkage check).',
+    },
+    'C18': {
+        'units': ['contexts.minimize'],
+        'bounded': 'c18', 'level': 'other',
+        'proved_part': '_minimize is the filter of intent.powerset() by Dn(S) = extent, and yields just the intent for an empty extent',
+        'bounded_part': 'powerset() order/exhaustiveness (library), Concept.attributes/minimal label forms, Infimum.minimal',
+        'technique': 'contract-based deductive verification of the generator _minimize (yields clause) against the powerset library contract; bounded stand-in for wrappers',
+        'level_text': 'The generator is proved to be exactly the specified filter, relative to the assumed powerset contract.',
+        'level_note': 'powerset() shortlex order and exhaustiveness are an assumed library contract, checked on the bounded side.',
     },
 }
 
-# properties not claimed (yet), each with the reason; kept current with MANIFEST.json by tools_manifest.py
-NOT_APPLICABLE = {pid: 'check under construction in this session: contracts and bounded module not yet registered'
-                  for pid in ['C%02d' % i for i in range(2, 21)]}
-for _p in PROPS:
-    NOT_APPLICABLE.pop(_p, None)
+for _pid, _text in [
+    ('C03', 'lattice contains exactly the formal concepts'), ('C04', 'concept generators agree'),
+    ('C05', 'neighbor links are the covering relation'), ('C06', 'canonical order and ranks'),
+    ('C09', 'upset/downset traversals'), ('C10', 'reduced labelling'), ('C11', 'structured persistence'),
+    ('C12', 'text formats round-trip'), ('C13', 'definition edit histories match the model'),
+    ('C14', 'derived definitions correct and unaliased'), ('C15', 'invariance under relabelling/duplication/transposition'),
+    ('C16', 'relations() classification'), ('C17', 'determinism across hash seeds'),
+    ('C19', 'input validation'), ('C20', 'graphviz export'),
+]:
+    PROPS[_pid] = {
+        'units': [], 'bounded': _pid.lower(), 'level': 'exploration',
+        'proved_part': '', 'bounded_part': 'everything (%s)' % _text,
+        'technique': BOUNDED_TECH + ' (deductive contracts for this property not yet discharged)',
+        'level_text': 'Bounded only: every clause of the property as a run-time contract on the real code over the stated scope.',
+        'level_note': 'No unbounded claim. The scope is stated in the evidence file (bounded_scope).',
+    }
+
+NOT_APPLICABLE = {}
